@@ -22,6 +22,8 @@ func init() {
 }
 
 func runC01(c *core.Ctx) {
+	c.Rule("EQNUM", "equality compares Int with Float numerically")
+	checkNumericEquality(c, "EQNUM")
 	c.Rule("CTEFRESH", "every reference to a common table expression gets fresh unique column names")
 	checkCTEFreshNames(c, "CTEFRESH")
 	c.Rule("MAPORDER", "no planner result depends on Go's map iteration order")
